@@ -427,3 +427,66 @@ package ss2022
 //@   ensures isnil(result2) && s.identityHeaderLen != 0 ==> (exists h [16]byte :: has(s.CredStore.ulm, h) && s.CredStore.ulm[h].Name == result1)
 //@   ensures isnil(result2) && s.identityHeaderLen == 0 ==> result1 == ""
 //@   ensures !isnil(result2) ==> isnil(result0)
+
+// ---------------------------------------------------------------------------
+// TCP stream (properties C01, C02)
+// ---------------------------------------------------------------------------
+
+// Object invariant of a stream connection: the read buffer, once allocated, can hold a maximum chunk and
+// readStart is an offset into it; the write buffer is empty with room for a length chunk and a maximum
+// payload chunk.
+//@ pure sscReadWF(c *ShadowStreamConn) bool = 0 <= c.readStart && c.readStart <= len(c.readBuf) && (isnil(c.readBuf) || cap(c.readBuf) >= 65535 + 16) && (isnil(c.readBuf) ==> len(c.readBuf) == 0) && !isnil(c.readCipher) && !samearray(c.readBuf, c.readCipher.nonce[:])
+//@ pure sscWriteWF(c *ShadowStreamConn) bool = len(c.writeBuf) == 0 && cap(c.writeBuf) >= 2 + 16 + 65535 + 16 && !isnil(c.writeCipher)
+
+// The nonce is a 96-bit little-endian counter (C02: every chunk is sealed and opened under its own sequence
+// number, so a dropped, duplicated or reordered chunk is opened under the wrong nonce).
+//@ pure nonceLo(b []byte) uint64 = uint64(b[0]) | uint64(b[1]) << 8 | uint64(b[2]) << 16 | uint64(b[3]) << 24 | uint64(b[4]) << 32 | uint64(b[5]) << 40 | uint64(b[6]) << 48 | uint64(b[7]) << 56
+//@ pure nonceHi(b []byte) uint32 = uint32(b[8]) | uint32(b[9]) << 8 | uint32(b[10]) << 16 | uint32(b[11]) << 24
+
+//@ func increment
+//@   requires len(b) == 12
+//@   modifies b[0:12]
+//@   loop 0 invariant 0 <= rangeindex + 1 && rangeindex + 1 <= 12 && len(b) == 12
+//@   loop 0 invariant forall j int :: 0 <= j && j <= rangeindex ==> b[j] == 0 && pre(b[j]) == 255
+//@   loop 0 invariant forall j int :: rangeindex < j && j < 12 ==> b[j] == pre(b[j])
+//@   ensures nonceLo(b) == old(nonceLo(b)) + 1
+//@   ensures nonceHi(b) == old(nonceHi(b)) + (nonceLo(b) == 0 ? uint32(1) : uint32(0))
+
+//@ func (*ShadowStreamCipher).DecryptInPlace
+//@   requires !isnil(c) && !samearray(ciphertext, c.nonce[:])
+//@   modifies ciphertext[0:len(ciphertext)], c.nonce[*]
+//@   ensures isnil(err) ==> len(ciphertext) >= 16 && len(plaintext) == len(ciphertext) - 16 && samearray(plaintext, ciphertext) && sliceoff(plaintext) == sliceoff(ciphertext)
+//@   ensures isnil(err) ==> nonceLo(c.nonce[:]) == old(nonceLo(c.nonce[:])) + 1 && nonceHi(c.nonce[:]) == old(nonceHi(c.nonce[:])) + (nonceLo(c.nonce[:]) == 0 ? uint32(1) : uint32(0))
+//@   ensures !isnil(err) ==> nonceLo(c.nonce[:]) == old(nonceLo(c.nonce[:])) && nonceHi(c.nonce[:]) == old(nonceHi(c.nonce[:]))
+
+// One chunk: exactly two AEAD openings (length, payload) under consecutive nonces; nothing is returned
+// unless both opened.
+//@ func (*ShadowStreamConn).read
+//@   modifies b[0:65535 + 16], c.readCipher.nonce[*]
+//@   requires !isnil(c) && !isnil(c.readCipher)
+//@   requires cap(b) >= 65535 + 16
+//@   requires !samearray(b, c.readCipher.nonce[:])
+//@   ensures isnil(err) ==> 1 <= n && n <= 65535
+//@   ensures isnil(err) ==> nonceLo(c.readCipher.nonce[:]) == old(nonceLo(c.readCipher.nonce[:])) + 2
+//@   ensures c.readStart == old(c.readStart) && len(c.readBuf) == old(len(c.readBuf)) && cap(c.readBuf) == old(cap(c.readBuf)) && c.readCipher == old(c.readCipher)
+
+// Every byte is read exactly once and in order, whichever mix of Read, WriteTo and tunnel-to-tunnel copy
+// moves the data: a new chunk is only read from the connection when no bytes buffered by an earlier Read
+// are still undelivered (they would be overwritten or skipped).
+//@ func (*ShadowStreamConn).Read
+//@   requires !isnil(c) && sscReadWF(c) && !samearray(b, c.readCipher.nonce[:])
+//@   callsite read: c.readStart == len(c.readBuf)
+//@   ensures sscReadWF(c)
+//@   ensures isnil(err) ==> 0 <= n && n <= len(b)
+
+//@ func (*ShadowStreamConn).WriteTo
+//@   requires !isnil(c) && sscReadWF(c)
+//@   loop 0 modifies b[0:cap(b)], c.readCipher.nonce[*]
+//@   loop 0 invariant sscReadWF(c) && cap(b) >= 65535 + 16
+//@   callsite read: c.readStart == len(c.readBuf)
+
+//@ func (*ShadowStreamConn).writeToShadowStreamConn
+//@   requires !isnil(c) && !isnil(w) && sscReadWF(c) && sscWriteWF(w) && c != w && !samearray(w.writeBuf, c.readCipher.nonce[:]) && !samearray(w.writeBuf, w.writeCipher.nonce[:])
+//@   loop 0 modifies writeBuf[0:cap(writeBuf)], c.readCipher.nonce[*], w.writeCipher.nonce[*]
+//@   loop 0 invariant sscReadWF(c) && sscWriteWF(w)
+//@   callsite read: c.readStart == len(c.readBuf)
